@@ -584,9 +584,9 @@ func zvC16Boundary(w, t, rem int, reduced bool) []int {
 	max := 1<<(8*uint(w)) - 1
 	var cand []int
 	if reduced {
-		cand = []int{0, 1, t - 1, t + 1, rem + 1, max}
+		cand = []int{0, 1, t - 1, t + 1, rem + 1, 0xfffc, max}
 	} else {
-		cand = []int{0, 1, 2, 3, t - 1, t, t + 1, t + 4, rem - 1, rem, rem + 1, 0x7f, 0x80, 0xfe, 0xff, 0x100, 0x7fff, 0x8000, 4077, 4095, 4096, 4097, 0xfffe, 0xffff}
+		cand = []int{0, 1, 2, 3, t - 1, t, t + 1, t + 4, rem - 1, rem, rem + 1, 0x7f, 0x80, 0xfe, 0xff, 0x100, 0x7fff, 0x8000, 4077, 4095, 4096, 4097, 0xfffc, 0xfffe, 0xffff} // 0xfffc: largest length that is a multiple of 4 and of 12
 	}
 	seen := map[int]bool{}
 	var out []int
